@@ -251,4 +251,111 @@ theorem treeHasT_iff {t : TreeImg} {X : List (List Nat)} {top : Bool} (h : TreeS
       simp only [heads, List.map_nil, route, List.filter_nil, List.length_nil] at this
       exact ⟨this, h2⟩
 
+theorem mkLeaves_snoc_len (Xi : List (List Nat)) (last : List Nat) (pids : List Nat) :
+    (mkLeaves (Xi ++ [last]) pids).length = Xi.length + 1 := by
+  rw [mkLeaves_length]; simp
+
+theorem mkLeaves_snoc_get : ∀ (Xi : List (List Nat)) (last : List Nat) (pids : List Nat) (d : LeafImg),
+    ∃ p, (mkLeaves (Xi ++ [last]) pids).getD Xi.length d = ⟨last.map some, false, p⟩
+  | [], last, pids, d => ⟨pids.headD 0, by simp [mkLeaves]⟩
+  | x :: Xi, last, pids, d => by
+    obtain ⟨p, hp⟩ := mkLeaves_snoc_get Xi last pids.tail d
+    exact ⟨p, by simpa [mkLeaves] using hp⟩
+
+theorem setLeaf_snoc : ∀ (Xi : List (List Nat)) (last ys : List Nat) (pids : List Nat) (pid : Nat),
+    ∃ pids', setLeaf (mkLeaves (Xi ++ [last]) pids) Xi.length ⟨ys.map some, false, pid⟩ = mkLeaves (Xi ++ [ys]) pids'
+  | [], last, ys, pids, pid => ⟨[pid], by simp [mkLeaves, setLeaf]⟩
+  | x :: Xi, last, ys, pids, pid => by
+    obtain ⟨pids', h⟩ := setLeaf_snoc Xi last ys pids.tail pid
+    refine ⟨pids.headD 0 :: pids', ?_⟩
+    have e : (Xi ++ [last]).isEmpty = (Xi ++ [ys]).isEmpty := by cases Xi <;> rfl
+    simp [mkLeaves, setLeaf, h, e]
+
+theorem setLeaf_split : ∀ (Xi : List (List Nat)) (last L R : List Nat) (pids : List Nat) (p1 p2 : Nat),
+    ∃ pids', setLeaf (setLeaf (mkLeaves (Xi ++ [last]) pids) Xi.length ⟨L.map some, true, p1⟩) (Xi.length + 1) ⟨R.map some, false, p2⟩ =
+      mkLeaves (Xi ++ [L, R]) pids'
+  | [], last, L, R, pids, p1, p2 => ⟨[p1, p2], by simp [mkLeaves, setLeaf]⟩
+  | x :: Xi, last, L, R, pids, p1, p2 => by
+    obtain ⟨pids', h⟩ := setLeaf_split Xi last L R pids.tail p1 p2
+    refine ⟨pids.headD 0 :: pids', ?_⟩
+    have e : (Xi ++ [last]).isEmpty = (Xi ++ [L, R]).isEmpty := by cases Xi <;> rfl
+    simp [mkLeaves, setLeaf, h, e]
+
+theorem heads_snoc (Xi : List (List Nat)) (ys : List Nat) : heads (Xi ++ [ys]) = heads Xi ++ [ys.headD 0] := by
+  simp [heads]
+
+/-- the head of the last leaf is what the internal root knows about it -/
+theorem heads_tail_snoc (Xi : List (List Nat)) (a b : List Nat) (h : Xi ≠ [] → a.headD 0 = b.headD 0) :
+    heads (Xi ++ [a]).tail = heads (Xi ++ [b]).tail := by
+  cases Xi with
+  | nil => rfl
+  | cons x Xi =>
+    simp only [List.cons_append, List.tail_cons, heads_snoc]
+    rw [h (by simp)]
+
+theorem treeShape_top {t : TreeImg} {X : List (List Nat)} {top : Bool} (h : TreeShape t X top) : t.inode.isSome = top := by
+  have := h.inode
+  cases top with
+  | true => simp only [if_true] at this; rw [this]; rfl
+  | false => simp only [Bool.false_eq_true, if_false] at this; rw [this.1]; rfl
+
+theorem headD_append_ne (a b : List Nat) (h : a ≠ []) : (a ++ b).headD 0 = a.headD 0 := by
+  cases a with
+  | nil => exact absurd rfl h
+  | cons x xs => rfl
+
+theorem headD_take (a : List Nat) (n : Nat) (hn : 1 ≤ n) : (a.take n).headD 0 = a.headD 0 := by
+  cases a with
+  | nil => simp
+  | cons x xs =>
+    cases n with
+    | zero => omega
+    | succ n => rfl
+
+
+/-- rewriting the last leaf of a chain with entries that keep the order and its first key keeps
+    the chain shape -/
+theorem treeShape_setLast {t t' : TreeImg} {Xi : List (List Nat)} {last ys : List Nat} {top : Bool}
+    (h : TreeShape t (Xi ++ [last]) top) (p : Nat)
+    (hl : t'.leaves = setLeaf t.leaves Xi.length ⟨ys.map some, false, p⟩) (hi : t'.inode = t.inode)
+    (hs : SortedNat (Xi ++ [ys]).flatten) (hne : Xi ≠ [] → ys ≠ [] ∧ ys.headD 0 = last.headD 0) :
+    TreeShape t' (Xi ++ [ys]) top := by
+  obtain ⟨pids, hlv⟩ := h.leaves
+  obtain ⟨pids', hs'⟩ := setLeaf_snoc Xi last ys pids p
+  refine ⟨by simp, ⟨pids', by rw [hl, hlv]; exact hs'⟩, hs, ?_, ?_⟩
+  · intro zs hzs
+    cases Xi with
+    | nil => simp at hzs
+    | cons x Xs =>
+      simp only [List.cons_append, List.tail_cons, List.mem_append, List.mem_singleton] at hzs
+      rcases hzs with hzs | rfl
+      · exact h.tail zs (by simp [hzs])
+      · exact (hne (by simp)).1
+  · have hin := h.inode
+    rw [hi]
+    cases top with
+    | true =>
+      simp only [if_true] at hin ⊢
+      rw [hin]
+      congr 1
+      exact heads_tail_snoc Xi last ys (fun hx => (hne hx).2.symm)
+    | false =>
+      simp only [Bool.false_eq_true, if_false] at hin ⊢
+      refine ⟨hin.1, ?_⟩
+      have : Xi = [] := by
+        cases Xi with
+        | nil => rfl
+        | cons x Xs => simp at hin
+      subst this; rfl
+
+theorem filterMap_id_map_some (xs : List Nat) : (xs.map some).filterMap id = xs := by
+  induction xs with
+  | nil => rfl
+  | cons x xs ih => simp [ih]
+
+theorem entries_mkLeaves : ∀ (X : List (List Nat)) (pids : List Nat),
+    (mkLeaves X pids).flatMap (fun l => l.entries.filterMap id) = X.flatten
+  | [], _ => rfl
+  | xs :: X, pids => by simp [mkLeaves, filterMap_id_map_some, entries_mkLeaves X]
+
 end Nervus.Crash
